@@ -19,11 +19,25 @@ ASSUMPTIONS = [
     'the same external resume values are replayed after each restore (resume value = 100 + index of the waiting callback)',
     'the per-instance call trace used by the monitors is deliberately NOT persisted (each restored instance starts with an '
     'empty one), so a re-executed step shows up twice and a skipped one is missing',
+    'model side of a plain chain: a checkpoint index k of the harness (k-th state entry over all instances) is the cut of the '
+    'stepping-task callback after the least number of loop iterations whose ENTERED log reaches k; it is taken only if that '
+    'configuration is a step boundary (live, no step in flight); the restored instance gets its first callback before the '
+    'environment does anything else (the harness creates the stepping task on restore and ticks until quiescent before it wakes '
+    'the process up) — this is the class of histories of the theorem',
+    'theorem hypotheses: programs without waitOn (plain processes), cuts at step boundaries, no callback of the uninterrupted '
+    'run exhausts the model fuel of 1000 loop iterations; histories consist of stepping-task callbacks and resume requests',
 ]
 TRUSTED = ['outline-chain model with stepper save/restore (lean/PlumpyModel/Outline/Model.lean + Persist/Model.lean: runCrash), '
            'compared with the real crash-restore chain of every generated outline (call trace, result, number of restores)',
-           'plain processes: the composition of C13 (the state object alone decides the next activation) with the view round trip '
-           'is not a Lean theorem; it is decided by the monitors on the real code']
+           'plain processes: crash-restore in the process-control model (lean/PlumpyModel/PM/Model.lean + Persist/Plain.lean: saveCfg, '
+           'restoreCfg, crun; the object of PMF.C08_plain_resume_equiv), driven by `pmodel restoreplain` with the environment of this '
+           'harness and compared with the real crash-restore chain of every plain program (call trace, final state, outcome, number '
+           'of restores); values are interned to integers (the model transports values, it never inspects one)',
+           'saveCfg / restoreCfg are the hand-written image, in the process-control model, of what Persist.save / load (C07) keep of a '
+           'process; C08_plain_bundle_roundtrip shows that everything restoreCfg reads survives Persist.save / load (generated member '
+           'tables); that restoreCfg resets everything else as load_instance_state + init() do is tied to the code by this correspondence',
+           'outputs and inputs of plain processes are not part of the process-control model: their equality with the uninterrupted '
+           'run is decided by the monitors on the real code (and their round trip by C08_continuation_persisted / C07)']
 
 
 def fix_block(b):
@@ -147,6 +161,89 @@ def compare(ref, run):
     return fails
 
 
+# ---------------------------------------------------------------------------------------------------------------
+# plain processes in the process-control model (`pmodel restoreplain`, lean/Driver/PlainRestore.lean)
+
+BAD_OUT = 99        # `raise` code standing for "the step emitted an output its port rejects" (ValueError from out())
+
+
+class Intern:
+    """values of the real program -> the integers of the model.  The model only transports values (it never inspects one), so
+    any injective coding is faithful; resume values (100 + index of the waiting callback) are kept as they are."""
+
+    def __init__(self):
+        self.tab = {}
+
+    def __call__(self, v):
+        if type(v) is int and 100 <= v < 1000:
+            return v
+        from harness import persist_gen as pg
+        key = pg.enc(v)
+        if key not in self.tab:
+            self.tab[key] = 1000 + len(self.tab)
+        return self.tab[key]
+
+
+def _rejected_output(prog, i):
+    return any(port == 'typed_int' and not (type(v) is int) for port, v in (prog.get('outs') or {}).get(i, []))
+
+
+def plain_fn_tokens(prog, intern):
+    """the program as the `fn` entries of `pmodel restoreplain` (same outcome syntax as `pmodel pm`)"""
+    out = []
+    for i, (aw, oc) in sorted(prog['fns'].items()):
+        if _rejected_output(prog, i):
+            out.append(f'{i} 0 raise {BAD_OUT}')         # out() raises before the first await and before the step returns
+            continue
+        if oc[0] == 'cont':
+            kws = sorted(oc[3].items())
+            s = f"cont {oc[1]} {len(oc[2])} " + ' '.join(str(intern(a)) for a in oc[2]) + f" {len(kws)} " + \
+                ' '.join(f'{k}={intern(v)}' for k, v in kws)
+        elif oc[0] == 'wait':
+            s = f'wait {oc[1]}'
+        elif oc[0] == 'stop':
+            s = f"stop {'-' if oc[1] is None else intern(oc[1])} {1 if oc[2] else 0}"
+        elif oc[0] == 'kill':
+            s = 'kill'
+        elif oc[0] == 'raise':
+            s = f'raise {oc[1]}'
+        else:
+            raise ValueError(oc)
+        out.append(' '.join(f'{i} {aw} {s}'.split()))
+    return out
+
+
+def plain_model_line(prog, crash, intern):
+    cs = sorted(set(crash))
+    return ' | '.join([' '.join([str(len(cs))] + [str(c) for c in cs])] + plain_fn_tokens(prog, intern))
+
+
+def plain_impl_line(prog, run, intern):
+    """the real crash-restore chain in the output syntax of `pmodel restoreplain`"""
+    if run.get('error') or run.get('state') is None:
+        return 'err:' + str(run.get('error') or run.get('obs_error'))[:80]
+    calls = []
+    for t in run['trace']:
+        calls.append(f"{t[0]}({','.join(str(intern(a)) for a in t[1])};{','.join(f'{k}={intern(v)}' for k, v in t[2])})")
+    oc = run.get('outcome')
+    if oc is None:
+        out = 'live'
+    elif oc[0] == 'finished':
+        out = f"finished:{'-' if oc[1] is None else intern(oc[1])}:{1 if oc[2] else 0}"
+    elif oc[0] == 'killed':
+        out = 'killed'
+    else:
+        last = run['trace'][-1][0] if run['trace'] else None
+        foc = prog['fns'][last][1] if last in prog['fns'] else None
+        if last is not None and _rejected_output(prog, last):
+            out = f'excepted:user{BAD_OUT}'
+        elif foc is not None and foc[0] == 'raise':
+            out = f'excepted:user{foc[1]}'
+        else:
+            out = 'excepted:?' + str(oc[1])[:40]
+    return f"trace={' '.join(calls)} state={run['state']} out={out} restores={run['restores']}"
+
+
 def run_program(job):
     common.ensure_repo_on_path()
     import sys
@@ -156,7 +253,8 @@ def run_program(job):
     name, prog, inputs, subsets = job['name'], job['prog'], job['inputs'], job['subsets']
     from harness import outline_gen as og
     ref = execute(prog, inputs, [])
-    res = dict(name=name, failures=[], lines=[], impl=[], hist={}, runs=0, nontrivial=[])
+    res = dict(name=name, failures=[], lines=[], impl=[], plines=[], pimpl=[], hist={}, runs=0, nontrivial=[])
+    intern = Intern()
     if ref['error'] or ref.get('state') is None:
         res['failures'].append(dict(signature='reference-run', clause='the uninterrupted run completes', case=dict(name=name, prog=prog, inputs=inputs, crash=[]),
                                     detail=str(ref['error'])))
@@ -181,6 +279,12 @@ def run_program(job):
                 res['impl'].append('err')
             else:
                 res['impl'].append(f"trace={','.join(run['ptrace'])} result={run['result_token']} restores={run['restores']}")
+        elif prog['kind'] == 'proc':
+            res['plines'].append(plain_model_line(prog, crash, intern))
+            res['pimpl'].append(plain_impl_line(prog, run, intern))
+    if prog['kind'] == 'proc':          # the uninterrupted run itself is a chain with no crash point
+        res['plines'].append(plain_model_line(prog, [], intern))
+        res['pimpl'].append(plain_impl_line(prog, dict(ref, restores=0), intern))
     res['ref'] = dict(state=ref['state'], steps=len(ref['trace']))
     return res
 
@@ -254,6 +358,7 @@ def run(ctx):
     with mp.Pool(ctx.workers) as pool:
         results = pool.map(run_program, jobs, chunksize=4)
     lines, impl, owner = [], [], []
+    plines, pimpl, powner = [], [], []
     failures, hist = [], {}
     nruns, distinct = 0, set()
     bhist = {}
@@ -267,6 +372,8 @@ def run(ctx):
         bhist[b] = bhist.get(b, 0) + 1
         for i, (l, il) in enumerate(zip(r['lines'], r['impl'])):
             lines.append(l); impl.append(il); owner.append((j, i))
+        for i, (l, il) in enumerate(zip(r.get('plines', []), r.get('pimpl', []))):
+            plines.append(l); pimpl.append(il); powner.append((j, i))
     chunks = [lines[i:i + 3000] for i in range(0, len(lines), 3000)]
     outs = ctx.model.run_parallel('restore', chunks) if lines else []
     model = [l for ch in outs for l in ch] if outs is not None else None
@@ -276,6 +383,19 @@ def run(ctx):
             if il != m:
                 divergences.append(dict(case=dict(name=j['name'], prog=j['prog'], inputs=j['inputs'], crash=list(j['subsets'][i])),
                                         line=l, impl=il, model=m))
+    # plain processes: the same chains through `crun` of lean/PlumpyModel/Persist/Plain.lean (the object of C08_plain_resume_equiv)
+    pchunks = [plines[i:i + 3000] for i in range(0, len(plines), 3000)]
+    pouts = ctx.model.run_parallel('restoreplain', pchunks) if plines else []
+    pmodel_out = [l for ch in pouts for l in ch] if pouts is not None else None
+    plain_restores = {}
+    if pmodel_out is not None:
+        for l, il, m, (j, i) in zip(plines, pimpl, pmodel_out, powner):
+            if il != m:
+                crash = list(j['subsets'][i]) if i < len(j['subsets']) else []
+                divergences.append(dict(case=dict(name=j['name'], prog=j['prog'], inputs=j['inputs'], crash=crash),
+                                        stream='plain', line=l, impl=il, model=m))
+            hk = m.rsplit('restores=', 1)[-1] if 'restores=' in m else 'bad'
+            plain_restores[hk] = plain_restores.get(hk, 0) + 1
     kinds = {}
     for j in jobs:
         k = j['prog']['kind']
@@ -285,10 +405,13 @@ def run(ctx):
         rule=f'one evaluation = one crash-restore chain (a subset of <= {M} step boundaries of one program) compared with the '
              'uninterrupted run of the same program; non-trivial = at least one restore happened and the program executes >= 2 calls; '
              'distinct = distinct (program, crash subset)',
-        samples=[dict(line=lines[i], impl=impl[i], model=(model[i] if model else None)) for i in (0, len(lines) // 2, len(lines) - 1)] if lines else [],
-        traces_validated=len(lines) if model is not None else 0,
+        samples=([dict(line=lines[i], impl=impl[i], model=(model[i] if model else None)) for i in (0, len(lines) // 2, len(lines) - 1)] if lines else []) +
+                ([dict(stream='plain', line=plines[i], impl=pimpl[i], model=(pmodel_out[i] if pmodel_out else None))
+                  for i in (0, len(plines) // 2, len(plines) - 1)] if plines else []),
+        traces_validated=(len(lines) if model is not None else 0) + (len(plines) if pmodel_out is not None else 0),
         divergences=divergences, failures=failures, exhaustive=False,
-        histograms=dict(restores_per_run=hist, programs=kinds, boundaries_per_program=bhist, M=M, model_lines=len(lines)),
+        histograms=dict(restores_per_run=hist, programs=kinds, boundaries_per_program=bhist, M=M, model_lines=len(lines),
+                        plain_model_lines=len(plines), plain_model_restores=plain_restores),
     )
 
 
@@ -308,5 +431,12 @@ def replay(ctx, failure):
         from harness import outline_gen as og
         cs = [max(k - 1, 0) for k in sorted(set(case.get('crash', [])))]
         m = ctx.model.run('restore', [' '.join([str(len(cs))] + [str(c) for c in cs]) + ' ' + og.case_line(prog['block'], prog['tabs'])])
+        out['model'] = m[0] if m else None
+    elif prog['kind'] == 'proc':
+        intern = Intern()
+        line = plain_model_line(prog, case.get('crash', []), intern)
+        m = ctx.model.run('restoreplain', [line])
+        out['plain_line'] = line
+        out['plain_impl'] = plain_impl_line(prog, run_, intern)
         out['model'] = m[0] if m else None
     return out
